@@ -459,6 +459,45 @@ fn main() {
                     }
                 }
             }
+            // "late" records (round 7, C15-r7-1): request A is never retransmitted (no timer call is made) and
+            // answered s2 after it was sent, s2 around and beyond ten minutes; request B, sent 500 s after A and
+            // answered after 100 ms, keeps the estimate from going stale.  Both responses are RFC 6298 samples
+            // (B's first); the RTO request C starts with is compared in microseconds.
+            for cfg_rto_ms in [500u64, 300] {
+                for s2_us in [590_000_000u64, 599_999_999, 600_000_000, 600_000_001, 601_000_000, 700_000_000, 1_000_000_000] {
+                    let mut client = StunClienteBuilder::new(TransportReliability::Unreliable(RttConfig {
+                        rto: Duration::from_millis(cfg_rto_ms), granularity: Duration::from_millis(1), rm: 16, rc: 7 }))
+                        .build().expect("client");
+                    let base = Instant::now();
+                    let m = stun_rs::MessageMethod::try_from(1u16).unwrap();
+                    let mut ok = true;
+                    let a = client.send_request(m, StunAttributes::default(), vec![0u8; 256], base);
+                    let _ = client.events();
+                    let tb = base + Duration::from_secs(500);
+                    let b = client.send_request(m, StunAttributes::default(), vec![0u8; 256], tb);
+                    let _ = client.events();
+                    let s1_us = 100_000u64;
+                    for (id, at) in [(b, tb + Duration::from_micros(s1_us)), (a, base + Duration::from_micros(s2_us))] {
+                        match id {
+                            Ok(id) => {
+                                let resp = rustun_verif_harness::obs::build(1, rustun_verif_harness::obs::CLASS_SUCCESS, id.as_bytes(), &[]);
+                                ok &= client.on_buffer_recv(&resp, at).is_ok();
+                                ok &= client.events().len() == 1;
+                            }
+                            Err(_) => ok = false,
+                        }
+                    }
+                    let tc = base + Duration::from_micros(s2_us) + Duration::from_secs(50);
+                    let id3 = client.send_request(m, StunAttributes::default(), vec![0u8; 256], tc);
+                    let snap = client.verif_snapshot();
+                    let used = id3.ok().and_then(|i| snap.transactions.iter().find(|x| x.id == i).map(|x| x.calc_rtt));
+                    writeln!(tf, "{}", json!({"op":"late","tr":ntr,"cfg_rto_us":cfg_rto_ms * 1000,"gran_us":1000,
+                        "s1_us":s1_us,"s2_us":s2_us,"sampled":ok,
+                        "used_rto_us": used.map(|d| (d.as_nanos() / 1000).min(2_000_000_000) as i64).unwrap_or(-1)})).unwrap();
+                    nlines += 1;
+                    ntr += 1;
+                }
+            }
         }
         _ => {
             eprintln!("usage: drive-client walk|replay ...");
